@@ -97,6 +97,15 @@ def edge_programs(rng, n):
     for k, src in enumerate(always):
         for lvl in ("-O0", "-O1", "-O3"):
             out.append({"name": f"always-{k}{lvl}", "src": src, "args": [lvl]})
+    # parsers that cannot fail (the optimiser removes the fail state) under the options whose feed starts with the
+    # empty-chunk test, which names that state
+    for k, src in enumerate(['parser { wait "x"; }\n', 'out int n = 0;\nparser { loop { /./; n = [n + 1]; } }\n',
+                             'yieldcode Y;\nparser { loop { /./; yield Y; } }\n', 'yieldcode Y;\nparser { wait "ab"; yield Y; wait "c"; }\n']):
+        for args in (["-O1", "-fzero-len-input-support"], ["-O3", "-fzero-len-input-support", "-feof-support"], ["-O2", "-fyield-support"],
+                     ["-O1", "-fyield-support", "-findirect-start-ptr", "-feof-support"]):
+            if "yield" in src and "-fyield-support" not in args:
+                continue
+            out.append({"name": f"cannot-fail-{k}-{len(out)}", "src": src, "args": args})
     for k in range(n):
         nd = rng.randint(0, 5)
         decls = rng.sample(decl_bits, nd)
